@@ -147,13 +147,16 @@ def estimator_spec(calc, s1, s2, mt):
     elif calc in ("paralinear", "logdet", "logdet_notk"):
         N2 = [[2 * x for x in row] for row in N]
         out["exact"] = _logdet_family(N2, calc)
-        if out["exact"] is None:
-            dz = det_int(N2) == 0
-            out["why"], out["code"] = ("det J = 0", "det-zero") if dz else ("det J < 0", "det-negative")
+        status = lambda M, v: "" if v is not None else ("det-zero" if det_int(M) == 0 else "det-negative")
+        out["code"] = status(N2, out["exact"])
+        out["why"] = {"": "", "det-zero": "det J = 0", "det-negative": "det J < 0"}[out["code"]]
         out["zero_diag"] = any(N[i][i] == 0 for i in range(r))
         if out["zero_diag"]:
             Np = [[(1 if (i == j and N[i][j] == 0) else 2 * N[i][j]) for j in range(r)] for i in range(r)]
             out["alt"] = _logdet_family(Np, calc)
+            out["code"] = status(Np, out["alt"])          # the code of the documented (padded) computation
+            if out["code"]:
+                out["why"] += f"; padded: {'det J = 0' if out['code'] == 'det-zero' else 'det J < 0'}"
     else:
         raise ValueError(calc)
     return out
